@@ -50,17 +50,21 @@ ClientHdr(c) == IF ~Primitive(c) THEN "none"
 \* The hop: Go's transport refuses control characters in a field value; the receiving side strips optional
 \* whitespace around it; an empty value is indistinguishable from an absent field for Header.Get.
 \* Result: what the server's Header.Get yields, as a form relative to the argument value.
-WireForms == {"refused", "blank", "same", "trimmed", "b64same"}
+\* ("emptyval": the field is present with an empty value - the server tells it apart from an absent field
+\* by looking at Header.Values, so an empty-string argument is mirrored by an empty header)
+WireForms == {"refused", "blank", "emptyval", "same", "trimmed", "b64same"}
 OnWire(c, h) ==
-  CASE h \in {"none", "empty"} -> "blank"
+  CASE h = "none" -> "blank"
+    [] h = "empty" -> "emptyval"
     [] h = "b64" -> "b64same"
     [] h = "raw" -> IF Ctl(c) THEN "refused" ELSE IF EdgeWS(c) THEN "trimmed" ELSE "same"
 
 \* Server: validateParamHeaders on what arrived
 ServerAcceptsWire(c, w) ==
   IF w = "refused" THEN FALSE                          \* the request never left the client
-  ELSE IF ~ArgPresent(c) THEN w = "blank"               \* a header for an absent / null parameter is a mismatch
+  ELSE IF ~ArgPresent(c) THEN w \in {"blank", "emptyval"}  \* a non-empty header for an absent / null parameter is a mismatch
   ELSE IF w = "blank" THEN FALSE                       \* "missing ... header for parameter"
+  ELSE IF w = "emptyval" THEN c.ty = "string" /\ c.val = "empty"   \* decodes to "", equal to an empty string only
   ELSE IF ~Primitive(c) THEN FALSE                     \* body value is not a primitive
   ELSE IF w = "b64same" THEN TRUE                      \* decodes to the value; integers / booleans compare by value
   ELSE IF w = "trimmed" THEN FALSE                     \* differs from the body value
